@@ -33,24 +33,24 @@ type execError struct{ id int }
 func (e *execError) Error() string { return fmt.Sprintf("executor error of task %d", e.id) }
 
 type taskRec struct {
-	id       int
-	kind     string // do try exec tryexec
-	ctxKind  string // pool own never
-	ctx      context.Context
-	cancel   context.CancelFunc
-	gate     chan struct{}
-	task     *workerpool.Task
-	execs    int32
-	released bool
-	sawCtx   context.Context
-	execErr  error
-	returned bool
-	accepted bool // Do returned, or TryDo returned true
-	tryRes   bool
-	submitAt int
-	returnedStep int // step at which the submission was first seen returned (-1: not yet)
-	cancelStep   int // step at which its own context was cancelled (-1: never)
-	ctxDoneEver bool // the task's or the pool's context was done at some point (monitor bookkeeping)
+	id           int
+	kind         string // do try exec tryexec
+	ctxKind      string // pool own never
+	ctx          context.Context
+	cancel       context.CancelFunc
+	gate         chan struct{}
+	task         *workerpool.Task
+	execs        int32
+	released     bool
+	sawCtx       context.Context
+	execErr      error
+	returned     bool
+	accepted     bool // Do returned, or TryDo returned true
+	tryRes       bool
+	submitAt     int
+	returnedStep int  // step at which the submission was first seen returned (-1: not yet)
+	cancelStep   int  // step at which its own context was cancelled (-1: never)
+	ctxDoneEver  bool // the task's or the pool's context was done at some point (monitor bookkeeping)
 }
 
 type scenario struct {
@@ -64,26 +64,26 @@ type scenario struct {
 }
 
 type runState struct {
-	t       *testing.T
-	tr      *bufio.Writer
-	pool    *workerpool.Pool
-	pcancel context.CancelFunc
-	tasks   []*taskRec
-	rets    []string
-	panics  int32
-	sc      scenario
-	msg     string
-	msgs    []string
-	burstGate chan struct{}
-	mu        sync.Mutex // protects rets and the per-task return flags (submitters of a burst finish concurrently)
-	step    int
-	startStep    int // first step at which Start was issued (-1: never)
-	poolDoneStep int // first step at which the pool context was cancelled (stop / cancelparent issued); -1 = never
-	stopReturned bool
+	t                *testing.T
+	tr               *bufio.Writer
+	pool             *workerpool.Pool
+	pcancel          context.CancelFunc
+	tasks            []*taskRec
+	rets             []string
+	panics           int32
+	sc               scenario
+	msg              string
+	msgs             []string
+	burstGate        chan struct{}
+	mu               sync.Mutex // protects rets and the per-task return flags (submitters of a burst finish concurrently)
+	step             int
+	startStep        int // first step at which Start was issued (-1: never)
+	poolDoneStep     int // first step at which the pool context was cancelled (stop / cancelparent issued); -1 = never
+	stopReturned     bool
 	stopReturnedStep int // first observation at which a Stop call was seen returned (-1: not yet)
-	stopCalled   bool
-	poolDone     bool
-	maxRunning   int
+	stopCalled       bool
+	poolDone         bool
+	maxRunning       int
 }
 
 // nres is the number of results buffered on the task's result channel; a submission through Execute* that is still
